@@ -235,7 +235,7 @@ DecideRevoke(a) ==
 (* device grant                                                              *)
 
 DecideDeviceAuthorize(a) ==
-  LET dev == [NoOut EXCEPT !.class = "device", !.status = 200, !.dc = N("d", cnt.d + 1), !.uc = "uc-" \o N("d", cnt.d + 1)]
+  LET dev == [NoOut EXCEPT !.class = "device", !.status = 200, !.dc = N("d", cnt.d + 1), !.uc = "uc-" \o N("d", cnt.d + 1), !.req = a.caller]
       granted == a.caller \in Clients /\ "device" \in Reg[a.caller].grants IN
   IF cfg.router = "P" THEN
     LET ra == ResourceClientAuthP(a.caller, a.cred) IN
